@@ -167,6 +167,13 @@ func c10Unit(j *Job, u *JobUnit) error {
 				d.Alts[1].Set(m.ProtoReflect())
 			}
 		}
+		// string members get values that cannot occur in an error text by accident (the client-side oracle looks for them)
+		mfs := m.ProtoReflect().Descriptor().Fields()
+		for i := 0; i < mfs.Len(); i++ {
+			if fd := mfs.Get(i); fd.Kind() == protoreflect.StringKind && !fd.IsList() && !fd.IsMap() && fd.ContainingOneof() == nil {
+				m.ProtoReflect().Set(fd, protoreflect.ValueOfString("zq7~"+string(fd.Name())+"~é"))
+			}
+		}
 		customs = append(customs, m)
 	}
 	for _, js := range u.Services {
